@@ -11,6 +11,7 @@ from .. import framework as fw
 
 ID = "C18"
 MODULE = "LasioProofs.Props.C18"
+EXTRA_MODULES = ["LasioProofs.Props.C18Df"]
 RULE = ("(a) LASFile objects built from JSON-able specs (header items in ~Version/~Well/~Parameter with int / float / numpy int / numpy float / "
         "numpy bool / NaN / +-inf / text / None / bool values, 0..5 curves x 0..6 rows of float (NaN, +-inf), integer and text data, duplicate "
         "and blank mnemonics, the untouched LASFile(), curves without rows) + every readable file of /repo/tests/examples: strict json.loads of "
@@ -952,5 +953,5 @@ LEVEL_TEXT = ("Machine-checked Lean 4 theorems about an executable model of lasi
               "generated obligations over the current DEPTH_UNITS table by decide (C18_units_table_recognised, C18_units_table_conflicts, "
               "C18_depth_defined_on_recognised); depth_m = depth_ft x 381/1250 over the rationals on every branch (C18_depth_consistent); "
               "counter-example theorems for the repaired defects R13 / R18. Tie: vw.json / vw.csv / vw.unit / vw.depth vs the real code.")
-LEVEL_NOTE = ("partial: the json/csv/openpyxl/pandas/numpy internals are trusted runtime — to_excel, df() and set_data_from_df are covered by the "
+LEVEL_NOTE = ("Props/C18Df.lean (model of set_data, C14): C18_df_roundtrip_names / C18_df_roundtrip_keys — set_data_from_df(df()) = set_data(table, names = session names) succeeds, keeps the number of curves, the arrays, units, values and descriptions, restores keys() when the session names are non-blank and pairwise distinct (C13's Distinct), and makes the ORIGINAL mnemonics equal to the old session names (a generated suffix GR:1 becomes part of the original); counter-examples: case-variant duplicates, a blank session name, unequal lengths. pandas itself is trusted. partial: the json/csv/openpyxl/pandas/numpy internals are trusted runtime — to_excel, df() and set_data_from_df are covered by the "
               "oracle only; float rounding of the depth conversions is not modelled (oracle: allclose rtol 1e-12).")
